@@ -234,6 +234,12 @@ def measure_setters_and_measure_constraints(ctx):
     """measure.center_mass / range / var reach their value through impose_mean / impose_spread / impose_variance, which keep their affine constructions over ALL positions (shared with C18.b: the range getter is max - min over all positions, so the setter must rescale by that same spread); impose_measure applies every collapse of every dict it was given, in order, per call (a tuple of dicts is never merged by key: two dicts may address the same measure)"""
     from .c18 import affine_shape
     affine_shape(ctx)
+    impose_measure_applies_every_collapse(ctx)
+
+
+def impose_measure_applies_every_collapse(ctx):
+    """impose_measure: a single dict is wrapped in a tuple; per call every collapse of every dict is applied to the loaded product
+    measure, position collapses (tracking) first, then weight collapses (noweight, not nullable) - shared by C19.g and C11.j"""
     f = ctx.func('mystic.constraints:impose_measure')
     g = ctx.func('mystic.constraints:impose_measure.dec.func')
     ref_outer = '''def impose_measure(npts, tracking={}, noweight={}):
@@ -265,3 +271,13 @@ def measure_setters_and_measure_constraints(ctx):
         got, want = SB.agree(node, src)
         ctx.stats['terms_compared'] += len(got)
         ctx.check(got == want, label, what, '%s differs from its confirmed behaviour: %s' % (label, SB.diff(got, want)), f, f.node if node is outer else g.node)
+
+
+@rule('C19.h', min_instances=5)
+def delegated_statistics_are_explicit_sums(ctx):
+    """what measure.expect / expect_var / support / support_index delegate to in math.measures keeps its explicit-sum definition: expectation and _expected_moment weigh f(x) by w over exactly the points with |w| > tol (signed measures keep their negative-weight points), support / support_index keep the points with w > tol (reference summaries shared with C18.f)"""
+    from .c18_refs import REFS as R18
+    for name, what in (('expectation', 'sum w f(x) / sum w over |w| > tol'), ('_expected_moment', 'weighted moment of f over |w| > tol'),
+                       ('expected_variance', '_expected_moment(order=2)'), ('support_index', 'indices with w > tol'), ('support', 'points with w > tol')):
+        a = 'mystic.math.measures:' + name
+        _ref(ctx, a, R18[a], what)
